@@ -998,9 +998,15 @@ def coq_cases(cases, impl):
                 continue
             if isinstance(e["after"], dict) and "annotation_db" not in e["after"] and "exc" not in e["after"]:
                 pass
-            out.append((i, "seqdb", f"CSeqDb KDna {cview(e['view'])} {zstr(e['parent'])} [" + ";".join(coq_row(1, r) for r in adb["tables"]["user"]) + "]",
+            out.append((i, "seqdb", f"CSeqDb {KIND.get(r['obs']['moltype'], 'KOther')} {cview(e['view'])} {zstr(e['parent'])} [" + ";".join(coq_row(1, r) for r in adb["tables"]["user"]) + "]",
                         dict(rd=e["rd"], after=e["after"])))
-        elif g == "alpha" and "rd" in e:
+        elif g == "alpha" and "rd" in e and "motifset" in e["rd"]:
+            rd = e["rd"]
+            if "genetic_code" in rd or not all(isinstance(m, str) for m in rd["motifset"]) or not (rd["gap"] is None or isinstance(rd["gap"], str)):
+                continue
+            out.append((i, "alphabet", f"CAlphabet [{';'.join(zstr(m) for m in rd['motifset'])}] {coq_opt_str(rd['gap'])} {zstr(rd['moltype'])}",
+                        dict(rd=rd, after=e["after"])))
+        elif g == "alpha" and "rd" in e and set(e["rd"]) <= {"type", "moltype", "version"}:
             out.append((i, "moltype", f"CMolType {zstr(e['rd']['moltype'])}", dict(rd=e["rd"], after=e["after"])))
         elif g == "imap":
             m = e["map"]
@@ -1098,6 +1104,8 @@ def project_kind(kind, d):
                 "user": (d.get("annotation_db") or {}).get("tables", {}).get("user", [])}
     if kind == "fmap":
         return {"spans": d["spans"], "parent_length": d["parent_length"], "type": d["type"]}
+    if kind == "alphabet":
+        return {"motifset": list(d.get("motifset", [])), "gap": d.get("gap"), "moltype": d.get("moltype")}   # Alphabet / CharAlphabet: same fields
     return d
 
 
@@ -1139,7 +1147,7 @@ def match_model(kind, exp, got):
         if isinstance(x, list) and isinstance(y, list):
             return len(x) == len(y) and all(eq(a, b) for a, b in zip(x, y))
         return x == y
-    if kind in ("dmat", "fmap", "db", "seqdb", "moltype"):
+    if kind in ("dmat", "fmap", "db", "seqdb", "moltype", "alphabet"):
         # JSON-level, key order of dicts not compared, only the modelled part of the dict (project_kind)
         if not (isinstance(got, list) and len(got) == 2):
             return False
@@ -1274,7 +1282,7 @@ def run(tier: str, seed: int) -> int:
                                 dispatch_types=stats.get("dispatch_types", 0)),
         partial=["registered types without a theorem (decided by the real-code oracle only): old/new alphabets, genetic codes, substitution models, "
                  "likelihood functions, app results other than NotCompleted, Gff/Genbank annotation dbs, new-style SequenceCollection/SeqsData, "
-                 "ArrayAlignment/SequenceCollection rows, alignments WITH an annotation db; the pickle and deepcopy routes of every type; data-store members "
+                 "ArrayAlignment/SequenceCollection rows, JointEnumeration and codon alphabets; the pickle and deepcopy routes of every type; data-store members "
                  "offer no to_rich_dict/to_json (their payload is one of the above)",
                  "DistanceMatrix: the general statement (stmt_dmat_roundtrip) is not proved; proved for sorted names a<b<c(<d) with arbitrary cells "
                  "(dmat_roundtrip_small_2/3/4); unsorted names / non-zero diagonal are refuted by witnesses and compared as {(a,b): d} only by the oracle",
@@ -1284,13 +1292,15 @@ def run(tier: str, seed: int) -> int:
                  "tables: the numpy cast of Columns.__setstate__ is modelled as the identity on what __getstate__ writes",
                  "annotation dbs: BasicAnnotationDb records (C17 row model, tables 'user' + the class' own); a sequence with its db is modelled for the "
                  "old-style Sequence only (new-style documents that the db is not serialised); span 'value'/'tidy' flags of a FeatureMap are not modelled",
-                 "moltypes by label only (get_moltype(label)); alphabets and genetic codes not modelled"],
+                 "moltypes and old-style alphabets by label (get_moltype(label)); new-style alphabets and genetic codes not modelled"],
         types_with_theorem=["cogent3.core.sequence.{Sequence,DnaSequence,RnaSequence,...} (also with an attached BasicAnnotationDb)",
                             "cogent3.core.new_sequence.{Sequence,DnaSequence,RnaSequence}",
                             "cogent3.core.sequence.SeqView", "cogent3.core.location.IndelMap", "cogent3.core.location.FeatureMap (Span, _LostSpan)",
                             "cogent3.core.alignment.Aligned", "cogent3.core.alignment.Alignment", "cogent3.core.tree.PhyloNode", "cogent3.util.table.Table",
                             "cogent3.util.dict_array.DictArray", "cogent3.app.composable.NotCompleted", "cogent3.core.annotation_db.BasicAnnotationDb",
-                            "cogent3.core.moltype.MolType", "cogent3.evolve.fast_distance.DistanceMatrix (small sizes only)"],
+                            "cogent3.core.moltype.MolType", "cogent3.core.alphabet.{Alphabet,CharAlphabet} (no genetic code attached)",
+                            "cogent3.core.alignment.Alignment with an attached BasicAnnotationDb (theorem only; rows and db are tied to the code separately)",
+                            "cogent3.evolve.fast_distance.DistanceMatrix (small sizes only)"],
         types_refuted=["cogent3.core.profile.{MotifCountsArray,MotifFreqsArray,PSSM} (class not preserved)", "bare cogent3.core.sequence.SeqView position"],
         types_in_inventory=len(concrete), types_uncovered=uncovered, types_without_decoder=stats.get("types_without_decoder", []),
         generator_errors=len(stats["gen_errors"]), generator_error_samples=stats["gen_errors"][:3],
